@@ -6,6 +6,10 @@ CONSTANTS
   Caps = {0, 1, 2, 4}
   Len0s = {0, 1, 2}
   Sizes = {0, 1, 3, 5}
+  ExtExact = {0, 3}
+  ExtNoHint = {3}
+  ExtUnder = {1, 5}
+  ExtOver = {1}
   AdvSizes = {1, 2}
   Avails = {2}
   CapAts = {0, 1, 5}
